@@ -40,13 +40,23 @@ pub fn check_case(cfg: &Config, sents: &[(Vec<char>, Vec<u8>)]) -> Option<(Strin
         for s in &built {
             tr.add_example(s);
         }
-        Ok::<_, String>(tr.verif_examples())
+        Ok::<_, String>((tr.verif_examples(), tr.n_features()))
     });
-    let got = match r {
+    let (got, n_features) = match r {
         Err(p) => return Some(("panic".into(), format!("Trainer::new/add_example panicked: {p}"))),
         Ok(Err(e)) => return Some(("new-err".into(), format!("Trainer::new failed on a valid configuration: {e}"))),
         Ok(Ok(g)) => g,
     };
+    // the public counter agrees with the documented features of the annotated boundaries
+    {
+        let mut distinct = std::collections::BTreeSet::new();
+        for (m, _) in expected(cfg, sents) {
+            distinct.extend(m.into_keys());
+        }
+        if n_features != distinct.len() {
+            return Some(("n-features".into(), format!("Trainer::n_features() = {n_features}, the annotated boundaries have {} distinct documented features", distinct.len())));
+        }
+    }
     let mut got: Vec<Example> = got
         .into_iter()
         .map(|(fs, y)| {
